@@ -86,12 +86,17 @@ pub fn tok(sk: &HllSketch) -> Value {
 
 pub fn obs(sk: &HllSketch) -> Value {
     let s = seven(sk);
-    json!({"b": ranks(&s), "pos": s[3] > 0.0, "emp": sk.is_empty(), "len": sk.serialize().len(), "rel": rel6(&s)})
+    json!({"b": ranks(&s), "pos": s[3] > 0.0, "emp": sk.is_empty(), "len": sk.serialize().len(), "rel": rel6(&s), "e3": est1000(&s)})
+}
+
+/// the estimate in thousandths (while it is small enough for the specification's integers)
+pub fn est1000(s: &[f64; 7]) -> i64 {
+    if s[3].is_finite() && s[3] >= 0.0 && s[3] < 2.0e6 { (s[3] * 1000.0).round() as i64 } else { -1 }
 }
 
 /// the relative error the one-sigma bounds advertise, in 10^-6 units: est/lb1 - 1 and 1 - est/ub1
 pub fn rel6(s: &[f64; 7]) -> Value {
-    let q = |x: f64| if x.is_finite() && x.abs() < 2000.0 { (x * 1e6).round() as i64 } else { -1 };
+    let q = |x: f64| if x.is_finite() { (x.clamp(0.0, 2.0) * 1e6).round() as i64 } else { 2_000_000 };
     if s[3] > 0.0 { json!([q(s[3] / s[2] - 1.0), q(1.0 - s[3] / s[4])]) } else { json!([-1, -1]) }
 }
 
@@ -106,7 +111,7 @@ fn uobs(u: &HllUnion) -> Value {
         u.upper_bound(NumStdDev::Two),
         u.upper_bound(NumStdDev::Three),
     ];
-    json!({"b": ranks(&s), "pos": s[3] > 0.0, "emp": u.is_empty(), "len": g.serialize().len(), "rel": rel6(&s)})
+    json!({"b": ranks(&s), "pos": s[3] > 0.0, "emp": u.is_empty(), "len": g.serialize().len(), "rel": rel6(&s), "e3": est1000(&s)})
 }
 
 fn utok(u: &HllUnion) -> Value {
@@ -708,6 +713,12 @@ pub fn record(args: &Args) {
                 let n2 = (k / 8 + 20).min(600) + rng.below(40) as usize;
                 triplet_random(&mut out, &mut rng, lgk, n2, 25, 11);
             }
+        }
+        // configurations above 12 (C02 quantifies to 21): sparse modes and set growth everywhere, the
+        // register array where the promotion threshold is within reach
+        let big: &[(u8, usize)] = if thorough { &[(13, 1300), (14, 2300), (16, 3000), (21, 3000)] } else { &[(21, 500), (13, 900)] };
+        for &(lgk, n) in big {
+            triplet_random(&mut out, &mut rng, lgk, n, 10, n / 3 + 3);
         }
         for &lgk in &[4u8, 5, 6, 8] {
             let sc = script_exceptions(lgk, &mut rng);
